@@ -196,8 +196,15 @@ func (t *textFlow) walkCall(cl *ssa.Call, idx int, d int) {
 		return
 	case "os.ReadFile":
 		return
-	case "(*github.com/spf13/pflag.FlagSet).GetString", "os.Getenv", "os.LookupEnv", "os.Getwd", "os.UserHomeDir":
-		return // sources: a flag's value, the environment
+	case "os.Getenv", "os.LookupEnv":
+		if t.field == "StartDir" && len(cl.Call.Args) > 0 {
+			if k, ok := constString(cl.Call.Args[0]); ok && (k == "PWD" || k == "OLDPWD") {
+				t.bad("the start directory is taken from $%s at %s: the environment's idea of the working directory is not the process's working directory (a launcher that sets the directory but passes its own environment on leaves $PWD stale), so the search starts somewhere else than `--dir .` or a plain cd would", k, c.Pos(cl.Pos()))
+			}
+		}
+		return // a source: the environment
+	case "(*github.com/spf13/pflag.FlagSet).GetString", "os.Getwd", "os.UserHomeDir":
+		return // sources: a flag's value, the process
 	}
 	// call through a func-typed parameter: the identity resolver idiom
 	if prm, ok := resolve(cl.Call.Value).(*ssa.Parameter); ok && !cl.Call.IsInvoke() {
@@ -443,6 +450,16 @@ func derivesFromField(v ssa.Value, names ...string) bool {
 					}
 				}
 			}
+			// a field of a local struct (a baseline record filled from the replayed state): what was stored into it
+			if _, isFA := u.X.(*ssa.FieldAddr); isFA {
+				if os, ok := fieldOrigins(u, 0); ok {
+					for _, o := range os {
+						if walk(o.V, d+1) {
+							return true
+						}
+					}
+				}
+			}
 		}
 		if _, isLookup := x.(*ssa.Lookup); isLookup {
 			return false // the result of a map lookup (an id) is a different domain than its key
@@ -468,6 +485,10 @@ func derivesFromField(v ssa.Value, names ...string) bool {
 }
 
 func rulePlanKeys(c *Ctx) {
+	// what the decoder produced is what is validated and recorded: nobody rewrites the decoded plan in between
+	rew := c.inputRewrites(map[string]bool{"ergo.PlanInput": true, "ergo.PlanTaskInput": true, "ergo.PlanTask": true})
+	c.check(len(rew) == 0, "ergo.PlanInput", "input-not-rewritten", "-", "the decoded plan is not modified between decoding, validation and the build of the events",
+		"the decoded plan is rewritten before it is validated and recorded ("+strings.Join(rew, "; ")+"): titles and `after` entries no longer mean what the document says - a reference rewritten to another title silently records a different edge")
 	var fns []*ssa.Function
 	if v := c.Fn("(*ergo.PlanInput).Validate"); v != nil {
 		fns = append(fns, v)
